@@ -85,6 +85,36 @@ func main() {
 		{name: "v5", srcDir: v5, outDir: filepath.Join(*out, "v5"), importAs: "github.com/evanphx/json-patch/v5", yieldAll: true, siteBase: 2 << 20},
 		{name: "legacy", srcDir: *repo, outDir: filepath.Join(*out, "legacy"), importAs: "github.com/evanphx/json-patch", yieldAll: true, siteBase: 3 << 20},
 	}
+	// packages an edit may have added under v5/ are type-checked first (in as many passes as their
+	// mutual imports need) so that the three instrumented packages can import them
+	type extra struct{ dir, path string }
+	var extras []extra
+	filepath.Walk(v5, func(p string, info os.FileInfo, err error) error {
+		if err != nil || !info.IsDir() {
+			return nil
+		}
+		rel, _ := filepath.Rel(v5, p)
+		if rel == "." || rel == "cmd" || strings.HasPrefix(rel, "cmd"+string(filepath.Separator)) || rel == filepath.Join("internal", "json") || strings.HasPrefix(rel, ".") {
+			return nil
+		}
+		if bp, err := build.Default.ImportDir(p, 0); err == nil && len(bp.GoFiles) > 0 {
+			extras = append(extras, extra{p, "github.com/evanphx/json-patch/v5/" + filepath.ToSlash(rel)})
+		}
+		return nil
+	})
+	// internal/json first: extras may import it, and it may import extras (then the passes sort it out)
+	for pass := 0; pass < 4 && len(extras) > 0; pass++ {
+		var left []extra
+		for _, e := range extras {
+			if !checkOnly(fset, li, e.dir, e.path) {
+				left = append(left, e)
+			}
+		}
+		if len(left) == len(extras) && pass > 0 {
+			break
+		}
+		extras = left
+	}
 	for _, sp := range specs {
 		instrumentPackage(fset, li, sp)
 	}
@@ -95,6 +125,30 @@ func main() {
 	// the two commands, uninstrumented
 	copyTree(filepath.Join(v5, "cmd"), filepath.Join(*out, "v5", "cmd"), func(p string) bool { return strings.HasSuffix(p, ".go") && !strings.HasSuffix(p, "_test.go") })
 	copyTree(filepath.Join(*repo, "cmd"), filepath.Join(*out, "legacy", "cmd"), func(p string) bool { return strings.HasSuffix(p, ".go") && !strings.HasSuffix(p, "_test.go") })
+
+	// packages an edit may have added under v5/ (helpers such as v5/internal/cache): copied as they
+	// are, uninstrumented - the tree must build; what happens inside them is not simulated
+	filepath.Walk(v5, func(p string, info os.FileInfo, err error) error {
+		if err != nil || !info.IsDir() {
+			return nil
+		}
+		rel, _ := filepath.Rel(v5, p)
+		if rel == "." || rel == "cmd" || strings.HasPrefix(rel, "cmd"+string(filepath.Separator)) || rel == filepath.Join("internal", "json") || strings.HasPrefix(rel, ".") || strings.Contains(rel, "zzverif") {
+			return nil
+		}
+		ents, _ := os.ReadDir(p)
+		for _, e := range ents {
+			if !e.IsDir() && strings.HasSuffix(e.Name(), ".go") && !strings.HasSuffix(e.Name(), "_test.go") {
+				b, err := os.ReadFile(filepath.Join(p, e.Name()))
+				must(err)
+				treeHash.Write(b)
+				must(os.MkdirAll(filepath.Join(*out, "v5", rel), 0o755))
+				must(os.WriteFile(filepath.Join(*out, "v5", rel, e.Name()), b, 0o644))
+				must(os.MkdirAll(filepath.Join(*out, "pristine", "v5", rel), 0o755))
+			}
+		}
+		return nil
+	})
 
 	// module files
 	gomod, err := os.ReadFile(filepath.Join(v5, "go.mod"))
@@ -190,6 +244,29 @@ type inst struct {
 	tmp     int
 	curFile string
 	usedRT  bool
+}
+
+// checkOnly type-checks an uninstrumented local package and registers it with the importer.
+func checkOnly(fset *token.FileSet, li *localImporter, dir, importPath string) bool {
+	bp, err := build.Default.ImportDir(dir, 0)
+	if err != nil {
+		return false
+	}
+	var files []*ast.File
+	for _, f := range bp.GoFiles {
+		af, err := parser.ParseFile(fset, filepath.Join(dir, f), nil, 0)
+		if err != nil {
+			return false
+		}
+		files = append(files, af)
+	}
+	ok := true
+	conf := types.Config{Importer: li, Error: func(error) { ok = false }}
+	pkg, _ := conf.Check(importPath, fset, files, nil)
+	if ok && pkg != nil {
+		li.local[importPath] = pkg
+	}
+	return ok
 }
 
 func instrumentPackage(fset *token.FileSet, li *localImporter, sp pkgSpec) {
